@@ -9,7 +9,7 @@ from .. import fssim
 from . import _ws
 
 ID = 'C14'
-TIERS = {'quick': {'seeds': 10000, 'seconds': 75, 'determinism': 32},
+TIERS = {'quick': {'seeds': 10000, 'seconds': 45, 'determinism': 32},
          'thorough': {'seconds': 900, 'determinism': 256, 'minimise_s': 120}}
 RULE = ('generated source trees on tmpfs (identifier / non-identifier / ignored directory names, '
         'packages with and without __init__.py, .py and other extensions, nested tests packages), '
